@@ -7,3 +7,16 @@ impl ByronAddress {
     /// network id of a Byron address (protocol magic lookup in legacy_address: not under contract here)
     #[verifier::external_body] pub fn network_id(&self) -> (r: Result<u8, JsError>) { unimplemented!() }
 }
+impl Clone for MalformedAddress { #[verifier::external_body] fn clone(&self) -> (r: Self) ensures r.0@ == self.0@ { unimplemented!() } }
+impl BigNum {
+    /// `TryFrom<BigNum> for u32` (contract PROVED on the real text in unit numeric, obligation u32::try_from<BigNum>; assumed here; R-opcall routes `.try_into()` to it)
+    #[verifier::external_body] pub fn try_into_u32(value: BigNum) -> (r: Result<u32, JsError>)
+        ensures value.0 <= 0xffff_ffff ==> (r is Ok && r->Ok_0 == value.0), value.0 > 0xffff_ffff ==> r is Err { unimplemented!() }
+}
+/// `From<u32> for BigNum` (contract PROVED in unit numeric, obligation BigNum::from<u32>; assumed here)
+impl From<u32> for BigNum { #[verifier::external_body] fn from(v: u32) -> (r: BigNum) ensures r.0 == v { unimplemented!() } }
+impl vstd::std_specs::convert::FromSpecImpl<u32> for BigNum { open spec fn obeys_from_spec() -> bool { true } open spec fn from_spec(v: u32) -> BigNum { BigNum(v as u64) } }
+// the crate's aliases (rust/src/lib.rs, rust/src/protocol_types/*.rs): all `u32`
+pub type Slot32 = u32;
+pub type TransactionIndex = u32;
+pub type CertificateIndex = u32;
